@@ -50,6 +50,11 @@ def quote(sel: bytes, safe: str = "/") -> str:
     return urllib.parse.quote(sel, safe=safe)
 
 
+# where the WAP view of the site lives (the server's waptop option); checks that configure another one set this
+# for the duration of their requests
+WAPTOP = "/wap"
+
+
 def render(view: str, selector: bytes, query: typing.Optional[bytes] = None,
            prequoted: bool = False, minimal_query: bool = False, minimal_path: bool = False) -> typing.Tuple[bytes, bool]:
     """-> (request bytes, tls).  `selector` is the raw selector bytes (starting with
@@ -72,7 +77,7 @@ def render(view: str, selector: bytes, query: typing.Optional[bytes] = None,
     if family in ("http", "wap"):
         method = "HEAD" if view in ("httphead", "waphead") else "GET"
         if family == "wap" and view != "wapauto":
-            path = "/wap" + path
+            path = WAPTOP.rstrip("/") + path       # what a visitor types: the waptop URL, then the path
         if query is not None:
             path += "?searchrequest=" + urllib.parse.quote_plus(query)
         extra = "Accept: text/html, text/vnd.wap.wml\r\nX-Wap-Profile: \"http://wap.example/p\"\r\n" if view == "wapauto" else ""
